@@ -956,7 +956,8 @@ class Node:
         res = None
         for child in list(self.children):
             n = target.add_child(child, before=None, deep=deep)
-            res = res or n  # Return the first new node
+            if res is None:
+                res = n  # Return the first new node
         return res  # type: ignore
 
     def _add_from(
